@@ -478,6 +478,9 @@ func (p *Prog) inlineOneImpl(fset *token.FileSet, file *ast.File, off int, j inl
 				switch x := n.(type) {
 				case *ast.CallExpr:
 					if x.End() <= call.Pos() { // evaluated before
+						if p.pureCtorCall(j.caller, file, x) {
+							return false // a value constructor with pure operands: order does not matter
+						}
 						impure = true
 					}
 				case *ast.UnaryExpr:
@@ -577,6 +580,7 @@ direct:
 	// pure operands), written as top-level statements of the helper before any
 	// return, are run explicitly after the inlined body instead.
 	simpleDefers := false
+	lateDefers := false
 	if hasDefer {
 		simpleDefers = true
 		firstReturn := token.Pos(1 << 40)
@@ -595,8 +599,12 @@ direct:
 			if !ok {
 				return true
 			}
-			if !top[ds] || ds.Pos() > firstReturn {
+			if !top[ds] {
 				simpleDefers = false
+			} else if ds.Pos() > firstReturn {
+				// registered after an early return: it runs only on the returns that
+				// follow it (handled per return, see lateDefers)
+				lateDefers = true
 			}
 			if _, isLit := ds.Call.Fun.(*ast.FuncLit); isLit {
 				simpleDefers = false
@@ -851,6 +859,7 @@ direct:
 	// helper: rewrite returns (not inside literals) into assignments + break
 	label := "inl" + suffix
 	earlyReturn := false
+	retDefers := map[*ast.ReturnStmt][]ast.Expr{} // late simple defers: the calls registered before each return
 	rewriteReturns := func(targets []ast.Expr, define bool) bool {
 		ok := true
 		var lastStmt ast.Stmt
@@ -883,6 +892,10 @@ direct:
 						lhs = append(lhs, deepCopy(t, im).(ast.Expr))
 					}
 					stmts = append(stmts, &ast.AssignStmt{Lhs: lhs, Tok: token.ASSIGN, Rhs: []ast.Expr{results[0]}})
+					for k := len(retDefers[rs]) - 1; k >= 0; k-- {
+						im := map[*ast.Ident]*ast.Ident{}
+						stmts = append(stmts, &ast.ExprStmt{X: deepCopy(retDefers[rs][k], im).(ast.Expr)})
+					}
 					if ast.Stmt(rs) != lastStmt {
 						earlyReturn = true
 						stmts = append(stmts, &ast.BranchStmt{Tok: token.BREAK, Label: ast.NewIdent(label)})
@@ -917,6 +930,12 @@ direct:
 					}
 				}
 			}
+			// simple deferred calls registered before this return run now (after
+			// the results were evaluated), latest first
+			for k := len(retDefers[rs]) - 1; k >= 0; k-- {
+				im := map[*ast.Ident]*ast.Ident{}
+				stmts = append(stmts, &ast.ExprStmt{X: deepCopy(retDefers[rs][k], im).(ast.Expr)})
+			}
 			if ast.Stmt(rs) != lastStmt {
 				earlyReturn = true
 				stmts = append(stmts, &ast.BranchStmt{Tok: token.BREAK, Label: ast.NewIdent(label)})
@@ -934,15 +953,43 @@ direct:
 	_, parentIsDefer := parent.(*ast.DeferStmt)
 	if simpleDefers && !parentIsGo && !parentIsDefer {
 		var kept []ast.Stmt
+		var regs []ast.Expr
 		for _, st := range body.List {
 			if ds, ok := st.(*ast.DeferStmt); ok {
 				deferred = append([]ast.Stmt{&ast.ExprStmt{X: ds.Call}}, deferred...)
 				deferPrefix = len(kept)
+				regs = append(regs, ds.Call)
 				continue
+			}
+			if lateDefers {
+				cur := append([]ast.Expr{}, regs...)
+				ast.Inspect(st, func(n ast.Node) bool {
+					if _, isLit := n.(*ast.FuncLit); isLit {
+						return false
+					}
+					if rs, ok := n.(*ast.ReturnStmt); ok {
+						retDefers[rs] = cur
+					}
+					return true
+				})
 			}
 			kept = append(kept, st)
 		}
 		body.List = kept
+		if lateDefers {
+			// every exit runs its own deferred calls; a helper without results that
+			// falls off its end runs all of them there
+			deferred = nil
+			deferPrefix = 0
+			if len(kept) > 0 {
+				if _, endsInReturn := kept[len(kept)-1].(*ast.ReturnStmt); !endsInReturn {
+					for k := len(regs) - 1; k >= 0; k-- {
+						im := map[*ast.Ident]*ast.Ident{}
+						body.List = append(body.List, &ast.ExprStmt{X: deepCopy(regs[k], im).(ast.Expr)})
+					}
+				}
+			}
+		}
 	}
 	wrap := func() []ast.Stmt {
 		out := append([]ast.Stmt{}, pre...)
@@ -1444,4 +1491,55 @@ func unhoistConds(file *ast.File) {
 		}
 		return true
 	})
+}
+
+// pureCtorCall: a call that only builds a value and whose operands are pure, so
+// that evaluating another call before or after it makes no difference:
+// gRPC's option constructors (grpc.WithX(...), grpc.MaxCallX(...),
+// grpc.FailOnNonTempDialError(...)) and module functions whose whole body is
+// `return <function literal>` (adapters). Decided on the re-parsed file, by the
+// file's imports and the caller package's scope.
+func (p *Prog) pureCtorCall(caller *Func, file *ast.File, x *ast.CallExpr) bool {
+	for _, a := range x.Args {
+		if isPureExpr(a) {
+			continue
+		}
+		if c2, ok := ast.Unparen(a).(*ast.CallExpr); ok && p.pureCtorCall(caller, file, c2) {
+			continue
+		}
+		return false
+	}
+	switch fn := ast.Unparen(x.Fun).(type) {
+	case *ast.SelectorExpr:
+		pk, ok := fn.X.(*ast.Ident)
+		if !ok {
+			return false
+		}
+		for _, im := range file.Imports {
+			path := strings.Trim(im.Path.Value, "\"")
+			name := path[strings.LastIndex(path, "/")+1:]
+			if im.Name != nil {
+				name = im.Name.Name
+			}
+			if name == pk.Name && path == "google.golang.org/grpc" {
+				n := fn.Sel.Name
+				return strings.HasPrefix(n, "With") || strings.HasPrefix(n, "MaxCall") || n == "FailOnNonTempDialError"
+			}
+		}
+	case *ast.Ident:
+		if caller == nil || caller.Pkg == nil || caller.Pkg.Types == nil {
+			return false
+		}
+		fo, ok := caller.Pkg.Types.Scope().Lookup(fn.Name).(*types.Func)
+		if !ok {
+			return false
+		}
+		if d := p.FnOf(fo); d != nil && d.Body != nil && len(d.Body.List) == 1 {
+			if rs, ok := d.Body.List[0].(*ast.ReturnStmt); ok && len(rs.Results) == 1 {
+				_, isLit := ast.Unparen(rs.Results[0]).(*ast.FuncLit)
+				return isLit
+			}
+		}
+	}
+	return false
 }
